@@ -3,6 +3,7 @@ package verifsim
 import (
 	"container/heap"
 	"fmt"
+	"os"
 	"sort"
 	"time"
 
@@ -192,6 +193,8 @@ type Stats struct {
 }
 
 type Sim struct {
+	trapAt int64 // experiment knob VERIF_EXP_TRAP
+
 	sc    *Scenario
 	tape  *Tape
 	now   int64
@@ -322,7 +325,16 @@ func (s *Sim) Violate(prop, class, detail string, node int) {
 
 func (s *Sim) fault(name string) { s.st.Fault[name]++ }
 func (s *Sim) probe(name string) { s.st.Probe[name]++ }
-func (s *Sim) note(name string)  { s.st.ExNote[name]++ }
+func (s *Sim) note(name string) {
+	s.st.ExNote[name]++
+	if expTrap != "" && name == expTrap && s.viol == nil {
+		// experiment knob (never set by ./check): stop at the first occurrence of a note so
+		// that the schedule leading to it can be studied as a replay file
+		s.trapAt = s.now
+	}
+}
+
+var expTrap = os.Getenv("VERIF_EXP_TRAP")
 
 func (s *Sim) tracef(format string, a ...any) {
 	if !s.record {
@@ -345,7 +357,7 @@ func h64(h Hash) uint64 {
 
 // ---------------------------------------------------------------- run loop
 
-func (s *Sim) Run() {
+func (s *Sim) installMapPerm() {
 	sc := s.sc
 	dbft.VerifMapPerm = func(n int) []int {
 		switch sc.MapOrder {
@@ -364,6 +376,10 @@ func (s *Sim) Run() {
 		}
 		return nil
 	}
+}
+
+func (s *Sim) Run() {
+	s.installMapPerm()
 	defer func() { dbft.VerifMapPerm = nil }()
 
 	s.setup()
@@ -405,6 +421,9 @@ func (s *Sim) loop() {
 				break
 			}
 		}
+	}
+	if s.trapAt > 0 && s.viol == nil && len(s.oracles) > 0 {
+		s.Violate(s.oracles[0].Name(), "exp_trap", fmt.Sprintf("note %q at t=%.3f s", expTrap, float64(s.trapAt)/1e9), 0)
 	}
 }
 
@@ -622,6 +641,9 @@ func (s *Sim) latency(a, b *Node, st Stream) int64 {
 	if sc.LatJitter > 0 {
 		l += s.tape.Range(st, 0, 20) * sc.LatJitter / 20
 	}
+	if sc.FastIdent > 0 && b.ident == sc.FastIdent-1 && b.kind == FAmnesia && b.inc <= 1 {
+		return 1 + l/8
+	}
 	if sc.HeavyTail && s.tape.Chance(st, 1, 16) {
 		l += s.tape.Range(st, 1, 40) * int64(sc.TPB) / 4
 		s.fault("heavy_tail_delay")
@@ -681,6 +703,20 @@ func (s *Sim) triggered(a *Node, p *Payload) {
 	}
 	if s.trigSeen == nil {
 		s.trigSeen = map[hv]bool{}
+	}
+	if own := (hv{p.H, byte(201 + a.id%50)}); key.v == 200 && a.kind == FAmnesia && a.crashAfterSends < 0 && !s.trigSeen[own] {
+		s.trigSeen[own] = true
+		if s.tape.Chance(SFault, 1, 2) {
+			// black-out: whatever is in flight is lost, the sender dies in the middle of this
+			// very broadcast and comes back with empty state while the others sort it out
+			for i := range s.cut {
+				s.cut[i] = true
+			}
+			a.crashAfterSends = int(s.tape.Draw(SFault, uint64(len(s.nodes))))
+			s.fault("trigger:blackout_and_crash_sender")
+			s.after(s.tape.Range(SFault, 1, 24)*int64(s.sc.TPB)/4, &Event{Kind: EvPartHeal})
+			return
+		}
 	}
 	if s.trigSeen[key] {
 		return
